@@ -3,7 +3,7 @@ import random
 import time
 import z3
 
-from .harness import Built, Obs, simulate, HarnessError
+from .harness import Built, Obs, simulate, simulate_same, HarnessError
 from .nir2smt import Unsupported
 
 
@@ -86,16 +86,29 @@ class Unroll:
         return out
 
     def replay(self, m, upto=None):
-        """Replay model m on pysim (fresh elaboration). Returns (trace, force, mismatches)."""
+        """Replay model m on amaranth.sim.  Returns (trace, force, observed-by-encoding, mismatches).
+
+        Decisive: simulation of the very Design the netlist was built from.  Additionally a FRESH elaboration of the
+        real code is simulated; its outcome is recorded in self.fresh ('match' / 'mismatch' / error text) — a mismatch
+        there only means that elaboration is not order-deterministic (e.g. set iteration in the schedulers).
+        """
         trace = self.trace(m, upto)
         force = self.forced_state(m)
         enc = self.observed(m, upto)
-        sim = simulate(self.b.make, self.b.deps, self.b.wrap, trace, [k for k in self.used if not enc or k in enc[0]], force)
+        keys = [k for k in self.used if not enc or k in enc[0]]
+        sim = simulate_same(self.b, trace, {k: self.used[k] for k in keys}, force)
         mism = []
         for t, (a, b) in enumerate(zip(enc, sim)):
             for k in a:
                 if a[k] != b[k]:
                     mism.append((t, k, a[k], b[k]))
+        self.fresh = None
+        if not mism:
+            try:
+                sim2 = simulate(self.b.make, self.b.deps, self.b.wrap, trace, keys, force, tm=self.b.tm)
+                self.fresh = "match" if all(a[k] == b[k] for a, b in zip(enc, sim2) for k in a) else "mismatch (elaboration order-dependent)"
+            except Exception as e:  # noqa
+                self.fresh = f"not replayable on a fresh elaboration: {type(e).__name__}: {str(e)[:100]}"
         return trace, force, enc, mism
 
 
@@ -206,10 +219,11 @@ class Ctx:
                 self.errors.append(f"replay failed for '{name}': {e}")
                 return None
             if mism:
-                self.errors.append(f"replay mismatch (encoder vs pysim) for '{name}' in cfg {self.cfg}: {mism[:4]}")
+                self.errors.append(f"replay mismatch (encoder vs pysim) {mism[:4]} for '{name}' in cfg {self.cfg}")
                 return None
             v.update(trace=trace, force=[[list(e), val] for e, val in force] if force else None, observed=enc,
-                     first_bad_cycle=upto, confirmed="pysim replay reproduces every observed signal of the counterexample")
+                     first_bad_cycle=upto, confirmed="amaranth.sim replay reproduces every observed signal of the counterexample",
+                     fresh_elaboration_replay=unroll.fresh)
         elif unroll is None:
             v.update(confirmed="n/a")
         self.violations.append(v)
